@@ -23,10 +23,13 @@ import io
 import logging
 import os
 import re
+import shutil
 import sys
+import tempfile
 import threading
 
 REPO = os.environ.get('VERIF_REPO', '/repo')
+sys.dont_write_bytecode = True  # importing the tree under test must not leave __pycache__ files in it
 
 import dawgie  # noqa: E402
 
@@ -61,6 +64,22 @@ MachineError = transitions.MachineError
 DOT_FILE = os.path.join(os.path.dirname(state_mod.__file__), 'state.dot')
 
 CURRENT = None  # the Rig the fakes report to
+_SCRATCH = {'dir': None}
+
+
+def scratch_dir():
+    '''the one scratch directory of this process (FSM.__init__ / FSM._archive create directories below
+    dawgie.context.fe_path; c12 keeps its fake git work tree here); removed by scratch_remove()'''
+    if _SCRATCH['dir'] is None:
+        _SCRATCH['dir'] = tempfile.mkdtemp(prefix='verif-fsm-')
+    dawgie.context.fe_path = os.path.join(_SCRATCH['dir'], 'fe')
+    return _SCRATCH['dir']
+
+
+def scratch_remove():
+    if _SCRATCH['dir'] is not None:
+        shutil.rmtree(_SCRATCH['dir'], ignore_errors=True)
+        _SCRATCH['dir'] = None
 
 
 # --------------------------------------------------------------------------------------------------------------
@@ -352,6 +371,7 @@ class Rig:
     def __init__(self, doctest=False, archive_mode='sync', reopen_result=False, initial_state='starting', reuse=False):
         global CURRENT  # pylint: disable=global-statement
         install()
+        scratch_dir()
         CURRENT = self
         self.doctest = doctest
         self.archive_mode = archive_mode
